@@ -297,6 +297,31 @@ def run_fixed(desc):
                                 out.violation({'mode': 'fixed', 'call': 'Path.glob(%r, flags=%s)' % (pat, '|'.join(names)),
                                                'problem': 'Path.glob differs from glob.glob(root_dir=...)'}, bucket=('dots-glob',))
                 out.nontrivial(('dots', pat))
+        # match() is right-anchored like rglob(): q.match(p, REALPATH) iff rglob(p) yields q, for patterns with a globstar in the
+        # middle and paths that have extra leading components
+        mr_tree = [('d', 'a'), ('d', 'a/b'), ('f', 'a/b/x'), ('d', 'd'), ('d', 'd/a'), ('d', 'd/a/b'), ('f', 'd/a/b/x'), ('f', 'a/x'), ('f', 'd/a/x'),
+                   ('f', 'x'), ('d', 'b'), ('f', 'b/x'), ('d', 'd/d'), ('d', 'd/d/a'), ('f', 'd/d/a/x'), ('d', 'a/b/c'), ('f', 'a/b/c/x')]
+        mr_pats = ['a/**/x', 'a/**/b/x', 'a/**', 'b/x', '*/x', 'a/*/x', 'a/b/x', 'a/**/**/x', 'x', 'a/**/c/x', '?/**/x', 'a/***/x', 'd/**/a/**/x',
+                   'b/**/x', 'a/b/**']      # (a trailing `**/` is the K16 zone)
+        with FC.built_tree(mr_tree) as (mroot, _r3):
+            with util.chdir(mroot):
+                here = WP.Path('.')
+                ents = [e[1] for e in mr_tree]
+                for pat in mr_pats:
+                    for fl in (G.GLOBSTAR, G.GLOBSTAR | G.DOTGLOB, G.GLOBSTARLONG | G.GLOBSTAR, G.GLOBSTAR | G.EXTGLOB, G.GLOBSTARLONG):
+                        ry = set(here.rglob(pat, flags=fl))
+                        for rel in ents:
+                            q = WP.Path(rel)
+                            out.evaluations += 1
+                            m = bool(q.match(pat, flags=fl | G.REALPATH))
+                            # for a file the pure (string-only) match sees the same text; a directory gets its separator only under REALPATH
+                            pm = m if os.path.isdir(rel) else bool(WP.PurePosixPath(rel).match(pat, flags=fl))
+                            if m != (q in ry) or pm != m:
+                                out.violation({'mode': 'fixed', 'call': 'Path(%r).match(%r, flags=%d|REALPATH)' % (rel, pat, fl), 'match': m,
+                                               'pure_match': pm, 'rglob_yields': q in ry,
+                                               'problem': 'match() and rglob() disagree about right-anchoring'}, bucket=('match-rglob-fixed', pat))
+                                break
+                    out.nontrivial(('match-rglob-fixed', pat))
         # a non-directory Path globs nothing
         out.evaluations += 1
         if list((rp / 'a').glob('*')):
